@@ -149,7 +149,7 @@ Proof.
     pose proof (notd_get n top Htop) as Hg. destruct (scope_get n top) as [[|]|]; try congruence; unfold set_top; rewrite Esc; reflexivity.
   - destruct HU as [a [l2 [Ha [Hl HU]]]]. exists a, l2. cbn [with_scopes after scopes raw]. split; [exact Ha|split; [exact Hl|]].
     apply (UpR_notd _ _ _ HU); [rewrite Esc; split; [discriminate|exact HF]|exact HN'|rewrite Esc; reflexivity].
-  - split; [reflexivity|split; [reflexivity|split; [reflexivity|intros _; exact HN']]].
+  - split; [reflexivity|split; [reflexivity|split; [reflexivity|split; [intros _; exact HN'|reflexivity]]]].
 Qed.
 
 (* ---- _peek_declarator_name_info in front of a plain identifier: one token read, then put back ---- *)
@@ -164,7 +164,7 @@ Proof.
   destruct (advance_up P s2 x l HU2) as [s3 [H3 [HU3 HA3]]].
   pose proof (Same_Adv P _ _ _ _ (Same_trans P _ _ _ HS1 HS2) HA3) as [Hb [Hi [Ht Hsc]]].
   destruct (reset_one P s3 x (before P s) (idx P s) l Hb Hi HU3) as [s4 [H4 [HU4 [_ [Hi4 [Ht4 Hsc4]]]]]].
-  exists s4. split; [|split; [exact HU4|split; [exact Hi4|split; [congruence|exact (fun H => Hsc4 (Hsc H))]]]].
+  exists s4. split; [|split; [exact HU4|split; [exact Hi4|split; [congruence|exact (SC_trans P _ _ _ Hsc Hsc4)]]]].
   intros f Hf. destruct f as [|[|f]]; try lia.
   unfold peek_declarator_name_info. unfold bind at 1. rewrite mark_eq.
   cbn [scan_name_info skip_stars].
@@ -248,7 +248,7 @@ Proof.
   pose proof (Same_Adv P _ _ _ _ (Same_trans P _ _ _ HS2 HS3) HA4) as HA14.
   pose proof (Adv_Same P _ _ _ _ HA14 HS5) as [_ [Hi5 [Ht5 Hsc5]]].
   exists (mkCoord P (curfile P s4) (tp x)), s5.
-  split; [|split; [exact HU5|split; [congruence|split; [rewrite Ht5, Ht1; lia|exact (fun H => Hsc5 (Hsc1 H))]]]].
+  split; [|split; [exact HU5|split; [congruence|split; [rewrite Ht5, Ht1; lia|exact (SC_trans P _ _ _ Hsc1 Hsc5)]]]].
   intros f Hf. do 7 (destruct f as [|f]; [lia|]).
   rewrite declarator_eq. unfold bind at 1. rewrite any_declarator_eq. unfold bind at 1. rewrite H1 by lia. cbv zeta. cbn [fst snd andb negb okind_is].
   change (kind_eqb K_ID K_TYPEID) with false. cbv iota.
